@@ -20,10 +20,12 @@ Slots == {"package", "signature", "if", "elseif", "for", "switch", "case", "stri
           \* the generator has a separate sourceMap.Add call site for each of these attribute kinds
           "classattr", "hrefattr", "styleattr", "onattr",
           \* name and parameters of a script template are two expressions written on one target line
-          "scripttempl", "csssig"}
+          "scripttempl", "csssig",
+          \* two top-level declarations starting on one templ line: `templ E() { ... } templ t2() { ... }`
+          "twodecls"}
 
 \* the package clause ends at the end of its line
-SingleLineOnly == {"package"}
+SingleLineOnly == {"package", "twodecls"}
 \* slots in which other text can stand on the same source line in front of the expression
 PreSlots == {"if", "for", "switch", "string", "attr", "boolattr", "spread", "condattr", "call", "blockcall",
              "rawgo", "script", "classattr", "hrefattr", "styleattr", "onattr"}
